@@ -15,12 +15,12 @@ from common import req, close, relerr, TOL, run_driver
 import mixgen
 
 META = {
-    'text': 'Theorems (Lean 4, over the reals, all arguments and vector lengths): for 27 of the 29 routine pairs the definition regenerated from dbm_p.py equals the definition regenerated from the Fortran source (Fortran literal kinds honoured: a default-real literal is the rational value of its binary32 rounding; objects not declared double precision, REAL() conversions, integer division and operations carried out in single precision are REFUSED by the translator, so such a routine loses its model and its pair obligation breaks loudly instead of being modelled as double; coefs, z_pr, fugacity, density through the general loop/matrix mode with the cubic root finder as a parameter), plus kernel-decided signature tables (every dbm_f.<name> call site resolves in both libraries with identical parameter order and arity). The remaining pairs (viscosity, cubic_roots) and all 29 on real code are compared by differential execution of dbm_p against a gfortran build of /repo/tamoc/src called through ctypes, over every regime branch.',
+    'text': 'Theorems (Lean 4, over the reals, all arguments and vector lengths): for 27 of the 29 routine pairs the definition regenerated from dbm_p.py equals the definition regenerated from the Fortran source (Fortran literal kinds honoured: a default-real literal is the rational value of its binary32 rounding; objects not declared double precision, REAL() conversions, integer division and operations carried out in single precision are REFUSED by the translator, so such a routine loses its model and its pair obligation breaks loudly instead of being modelled as double; coefs, z_pr, fugacity, density through the general loop/matrix mode with the cubic root finder as a parameter), plus kernel-decided signature tables (every dbm_f.<name> call site resolves in both libraries with identical parameter order and arity). Through the pair theorems the physical-state theorems of C01 are carried over to the routines regenerated from dbm_eos.f95 (Props/C08Fug.lean: fortran_reported_roots_physical, fortran_fugacity_refines, fortran_fugacity_pos, fortran_density_refines, fortran_gas_not_denser): both backends refine the same hand model, so they report the same physical state by theorem. The remaining pairs (viscosity, cubic_roots) and all 29 on real code are compared by differential execution of dbm_p against a gfortran build of /repo/tamoc/src called through ctypes, over every regime branch.',
     'note': 'Trusted: Lean kernel + 3 standard axioms; translators py2ir/f2ir (validated every run by executing the generated definitions against the Python functions and the compiled Fortran they were generated from); gfortran -O2 as the Fortran semantics; real arithmetic for doubles. Partial: viscosity ((2,1)-array broadcasting outside the translator subset) and cubic_roots (numpy.roots vs PDAS; no proof of the PDAS algorithm) are decided by differential execution only; the pair theorems of z_pr/fugacity/density hold for every root finder, and the two root finders are compared on real code.',
     'technique': 'Lean 4 program-pair equality over two models regenerated from source (Python and Fortran translators) + differential execution through ctypes',
 }
 GEN = ['phys', 'eos', 'sigs', 'eosfull']
-MODULES = ['TamocV.Props.C08', 'TamocV.Gen.PhysPy', 'TamocV.Gen.PhysF', 'TamocV.Gen.EosPy', 'TamocV.Gen.EosF',
+MODULES = ['TamocV.Props.C08Fug', 'TamocV.Props.C08', 'TamocV.Gen.PhysPy', 'TamocV.Gen.PhysF', 'TamocV.Gen.EosPy', 'TamocV.Gen.EosF',
            'TamocV.Gen.Signatures', 'TamocV.Gen.EosFullPy', 'TamocV.Gen.EosFullF']
 RULE = ('per routine: arguments drawn log-uniformly over the physical ranges (de 1e-5..0.1 m, densities, viscosities, '
         'interfacial tension, slip velocity, diffusivities incl. non-positive sentinels, status +-1, fp_type 0/1, nc 1..6) '
@@ -37,7 +37,9 @@ G = 9.81
 
 
 def audit_files():
-    return ['TamocV/Num.lean', 'TamocV/Real.lean', 'TamocV/Props/C08.lean', 'TamocV/Gen/PhysPy.lean',
+    return ['TamocV/Num.lean', 'TamocV/Real.lean', 'TamocV/Props/C08.lean', 'TamocV/Props/C08Fug.lean', 'TamocV/Props/C01Fug.lean',
+            'TamocV/Props/C01Gen.lean', 'TamocV/Props/C01GC.lean', 'TamocV/Props/C01.lean', 'TamocV/Lemmas/EosRefine.lean', 'TamocV/Lemmas/EosRefineGC.lean',
+            'TamocV/Lemmas/Eos.lean', 'TamocV/Lemmas/C01.lean', 'TamocV/Lemmas/Basic.lean', 'TamocV/Model/Eos.lean', 'TamocV/Gen/PhysPy.lean',
             'TamocV/Gen/PhysF.lean', 'TamocV/Gen/EosPy.lean', 'TamocV/Gen/EosF.lean', 'TamocV/Gen/Signatures.lean',
             'TamocV/Gen/EosFullPy.lean', 'TamocV/Gen/EosFullF.lean']
 
